@@ -11,7 +11,7 @@ from props.c01_tables import labels, numeric_forms
 from ref import decmodel
 
 PLACES = ["before", "between", "after"]
-COUNTS = [1, 0, 2, 3]
+COUNTS = [1, 0, 2, 3, 4]   # 4: the fourth statement repeats the first one verbatim (a, b, c, a)
 NUMS = ["1.5", "2", "-0.8", "+3", "20.e12", "2E-4", ".5", "7."]
 KINDS = ["Alias", "ChargeConj", "Define", "CopyDecay", "CDecay", "Particle", "Pythia", "JetSetPar", "LS",
          "BlattWeisskopf", "ChangeMass", "IncFactor", "SetLineshapePW", "ModelAlias"]
@@ -76,7 +76,7 @@ def gen(c):
         v = c.choose(f"value_{k}", [0, 1, 2])
         split = c.flag(f"split_{k}") if n > 1 else False
         for i in range(n):
-            st = stmt(k, i, v)
+            st = stmt(k, i if i < 3 else 0, v)
             if k == "Particle" and st[1] == "MyRho":
                 need_alias_myrho = True
             (where[PLACES[(PLACES.index(place) + i) % 3]] if split else where[place]).append(st)
